@@ -32,6 +32,27 @@ What is new with respect to `ExtraTranslator` (everything not understood still r
   * augmented assignments on local names, value-level `and` / `or` on ints, `&` / `>>` on ints,
     `for ..: if c: return K` followed by `return K'` (-> `List.any`).
 
+Robustness against behaviour-preserving refactorings of the source (everything below is either exact Python semantics
+or an equivalence whose side conditions are checked syntactically; when a side condition fails nothing is rewritten):
+
+  * the components of a LOOP STATE (`for` -> `List.foldl`, `while` -> `<method>_loop<k>`) are listed in the order in
+    which the variables are first bound in the function (`state_order`), never by name: renaming locals, or reordering
+    / splitting / merging the assignments of a loop body, leaves the generated signatures alone.
+  * `v = self.<attr>` (attribute read once into a local that is bound nowhere else) is inlined (`inline_self_aliases`):
+    `degree = self.degree`, `to_fq = self.FQP_corresponding_FQ_class`; the output is that of the unrefactored source.
+  * `acc = []` / `for T in IT: [if C:] acc.append(E)` is the comprehension `acc = [E for T in IT if C]`
+    (`accumulate_pattern`).
+  * a call of a module-level helper function defined in the same file whose body is a single expression (after the
+    previous normalisation) is inlined at the call (`inline_helper`; atomic arguments only, no capture, the helper's
+    source is pinned by its own `.. sha256 .. (module-level helper, inlined at its call)` header line of the generated
+    definition).
+  * `range(0, n)` is `range(n)`; `x if c else y` with one int and one bool branch is int-valued (bools are the ints
+    0 / 1, as for the value-level `and` / `or`).
+  * that `len(X) - E` / `len(X) - E - c` is not negative is DERIVED from the test of the enclosing `while len(X) > E`
+    loop, tracking `X.pop()` and length-preserving updates flow-sensitively (`loop_len_facts`, `step_len_facts`,
+    `derived_nonneg`): no table entry keyed by source text is needed for it, and moving the subtraction to a place
+    where it could be negative is refused.
+
 Totalisations (shared with the hand-written model): `l[i]` out of range is `0`, `b[k] op= v` out of
 range is a no-op, `b.pop()` of an empty list yields `0`; the Python code raises `IndexError` there (the
 classes keep `len(coeffs) == degree`, and the tie theorems that need it carry that hypothesis).
@@ -437,6 +458,18 @@ class FieldsTranslator(ExtraTranslator):
             v = self.static_cond(e.test, env)
             if v is not None:
                 return self.expr(e.body if v else e.orelse, env)
+            ta, tb = self.type_of_static(e.body, env), self.type_of_static(e.orelse, env)
+            boolish, intish = (BOOL, "prop"), (INT, NAT, LIT, BINT)
+            if (ta in boolish and tb in intish) or (ta in intish and tb in boolish):
+                # `x if c else y` with an int and a bool branch: as for the value-level `and` / `or` below, bools
+                # count as the ints 0 / 1 (`False == 0`, `True == 1`, and `bool` is a subclass of `int`)
+                mark = None if self.binds is None else len(self.binds)
+                c = self.cond(e.test, env)
+                a = self.as_int(*self.expr(e.body, env), ctx=ast.unparse(e))
+                b = self.as_int(*self.expr(e.orelse, env), ctx=ast.unparse(e))
+                if self.binds is not None and len(self.binds) != mark:
+                    raise TranslateError(f"raising call inside the conditional expression {ast.unparse(e)}")
+                return f"(if {c} then {a} else {b})", INT
             return super().expr(e, env)
         if isinstance(e, ast.BoolOp):
             tys = [self.type_of_static(v, env) for v in e.values]
@@ -516,7 +549,7 @@ class FieldsTranslator(ExtraTranslator):
             return f"({a} % ({b + 1} : Int))", INT
         if isinstance(op, ast.Sub) and ta in (NAT, LIT) and tb in (NAT, LIT) and not (ta == LIT and tb == LIT):
             a2, b2, t = self.unify(a, ta, b, tb, ast.unparse(e))
-            if self.count_ctx == 0 and ast.unparse(e) not in self.nonneg:
+            if self.count_ctx == 0 and ast.unparse(e) not in self.nonneg and not self.derived_nonneg(e, env):
                 raise TranslateError(f"natural-number subtraction {ast.unparse(e)!r} not known to be non-negative")
             # in a count position (`[x] * n`, `range(n)`) a negative count means "empty": truncated subtraction
             return f"({a2} - {b2})", NAT
@@ -700,6 +733,12 @@ class FieldsTranslator(ExtraTranslator):
                         if not (ast.unparse(an) in self.positive or (v is not None and v > 0)):
                             raise TranslateError(f"{f.id}: argument {ast.unparse(an)!r} for {pn} is not known to be positive")
                 return self.apply_ext(f.id, ext, args)
+            if f.id not in self.externs and f.id not in self.subst and f.id not in self.erase \
+                    and not (self.core_abs is not None and f.id in self.core_abs) \
+                    and f.id not in ("cast", "bool", "int", "pow"):
+                node = self.module_helper(f.id)
+                if node is not None:
+                    return self.inline_helper(node, e, env)
         return super().call(e, env)
 
     module_fns = {}
@@ -717,6 +756,10 @@ class FieldsTranslator(ExtraTranslator):
     def iterable(self, e, env):
         if isinstance(e, ast.Call) and isinstance(e.func, ast.Name) and e.func.id not in env and not e.keywords:
             fid = e.func.id
+            if fid == "range" and len(e.args) == 2 and self.const_eval(e.args[0]) == 0 \
+                    and isinstance(e.args[0], ast.Constant) and type(e.args[0].value) is int:
+                # range(0, n) is range(n)
+                return self.iterable(ast.copy_location(ast.Call(func=e.func, args=[e.args[1]], keywords=[]), e), env)
             if fid == "range" and len(e.args) == 1:
                 self.count_ctx += 1
                 try:
@@ -892,6 +935,15 @@ class FieldsTranslator(ExtraTranslator):
         # an assignment inside a nested `for` is not definite (the loop may run zero times)
         return super().maybe_unassigned([st for st in body if not isinstance(st, ast.For)], name)
 
+    @staticmethod
+    def state_order(state, env):
+        """the components of a loop state, in the order in which the variables were FIRST BOUND in the function (the
+        insertion order of the environment: parameters, then locals).  The order does not depend on the NAMES of the
+        variables (renaming a local leaves the generated definitions alone up to the names of bound variables, which
+        Lean ignores), nor on the order in which the loop body assigns them."""
+        assert all(n in env for n in state)
+        return [n for n in env if n in state]
+
     def names_in(self, nodes):
         return {n.id for s in nodes for n in ast.walk(s) if isinstance(n, ast.Name)}
 
@@ -946,7 +998,7 @@ class FieldsTranslator(ExtraTranslator):
                 state.append(n)
             elif live:
                 raise TranslateError(f"{fn.name}: variable {n} defined only inside the loop is used after it")
-        state.sort()
+        state = self.state_order(state, env)
         if not state:
             raise TranslateError(f"{fn.name}: loop without loop-carried state")
         sty = T(*[env[n] for n in state]) if len(state) > 1 else env[state[0]]
@@ -994,7 +1046,7 @@ class FieldsTranslator(ExtraTranslator):
                 raise TranslateError(f"{fn.name}: loop-local variable {n} is read before it is assigned")
         if not state:
             raise TranslateError(f"{fn.name}: while loop without state")
-        state.sort()
+        state = self.state_order(state, env)
         types = [env[n] for n in state]
         sty = T(*types) if len(state) > 1 else types[0]
         pat = "(" + ", ".join(lname(n) for n in state) + ")" if len(state) > 1 else lname(state[0])
@@ -1012,7 +1064,8 @@ class FieldsTranslator(ExtraTranslator):
         def run(raising):
             self.loop_markers[mname] = (prefix, list(state), types, raising)
             try:
-                return self.block(list(body) + [marker], dict(env), Fn(fn.name + ".<while>", [], sty, raising), cur)
+                return self.block(list(body) + [marker], self.while_body_env(st, body, assigned, env),
+                                  Fn(fn.name + ".<while>", [], sty, raising), cur)
             finally:
                 del self.loop_markers[mname]
         save = self.saw_raise, self.fresh, self.itcount
@@ -1086,6 +1139,8 @@ class FieldsTranslator(ExtraTranslator):
         if len(first) != 1 or first[0] is not body[0]:
             return self.block(first + list(body[1:]), env, fn, cur, tail_state=tail_state)
         st, rest = body[0], list(body[1:])
+        env = self.step_len_facts(env, st)
+        self.curenv = env
         if isinstance(st, ast.If):
             v = self.static_cond(st.test, env)
             if v is not None:
@@ -1225,6 +1280,359 @@ class FieldsTranslator(ExtraTranslator):
         if ast.unparse(value) != want:
             raise TranslateError(f"class alias self.{a} is bound to {ast.unparse(value)!r}, expected {want!r}")
 
+
+    # ------------------------------------------------------------------ source normalisations
+    # Each of these rewrites a construct into an EQUIVALENT spelling that the translator already understands, under
+    # side conditions that are checked syntactically.  When a side condition fails the source is left as it is (and
+    # the translator then either understands it as written or raises `TranslateError`): nothing is ever guessed.
+
+    @staticmethod
+    def occurrences(nodes, name):
+        return sum(1 for s in nodes for x in ast.walk(s) if isinstance(x, ast.Name) and x.id == name)
+
+    SCOPE_SENSITIVE = (ast.NamedExpr, ast.Yield, ast.YieldFrom, ast.Await, ast.Lambda)
+
+    def accumulate_pattern(self, st, nxt, root):
+        """the adjacent statements
+
+              acc = []                                     acc = []
+              for T in IT:                        or       for T in IT:
+                  if C:                                        acc.append(E)
+                      acc.append(E)
+
+        are `acc = [E for T in IT if C]` (resp. without the `if`): IT is evaluated once, then for every item C, E are
+        evaluated in this order and the value of E is appended to a new list, and an exception raised by IT / C / E
+        propagates at the same point.  The two differ only in the SCOPE of the names of T (a comprehension does not
+        leak its variables, a `for` statement binds them in the function) and in the moment `acc` is bound; hence the
+        side conditions: the names of T occur nowhere else in the function, `acc` does not occur in T, IT, C, E, and
+        none of these contains a construct whose meaning depends on the enclosing scope (walrus, lambda, yield, await).
+        Returns the assignment of the comprehension, or None when the pattern / a side condition does not hold."""
+        if not (isinstance(st, ast.Assign) and len(st.targets) == 1 and isinstance(st.targets[0], ast.Name)
+                and isinstance(st.value, ast.List) and not st.value.elts and isinstance(nxt, ast.For)):
+            return None
+        acc = st.targets[0].id
+        if nxt.orelse or len(nxt.body) != 1:
+            return None
+        tg = nxt.target
+        if isinstance(tg, ast.Name):
+            tnames = [tg.id]
+        elif isinstance(tg, ast.Tuple) and all(isinstance(x, ast.Name) for x in tg.elts):
+            tnames = [x.id for x in tg.elts]
+        else:
+            return None
+        inner, conds = nxt.body[0], []
+        if isinstance(inner, ast.If):
+            if inner.orelse or len(inner.body) != 1:
+                return None
+            conds, inner = [inner.test], inner.body[0]
+        if not (isinstance(inner, ast.Expr) and isinstance(inner.value, ast.Call) and not inner.value.keywords
+                and len(inner.value.args) == 1 and isinstance(inner.value.func, ast.Attribute)
+                and inner.value.func.attr == "append" and isinstance(inner.value.func.value, ast.Name)
+                and inner.value.func.value.id == acc and not isinstance(inner.value.args[0], ast.Starred)):
+            return None
+        elt = inner.value.args[0]
+        parts = [tg, nxt.iter, elt] + conds
+        if acc in tnames or len(set(tnames)) != len(tnames) or self.occurrences(parts, acc):
+            return None
+        if any(isinstance(x, self.SCOPE_SENSITIVE) for p_ in parts for x in ast.walk(p_)):
+            return None
+        for n in tnames:
+            if self.occurrences(root, n) != self.occurrences([nxt], n):
+                return None        # the loop variable is used (or bound) outside the loop
+        gen = ast.comprehension(target=copy.deepcopy(tg), iter=nxt.iter, ifs=list(conds), is_async=0)
+        comp = ast.ListComp(elt=elt, generators=[gen])
+        new = ast.Assign(targets=[ast.Name(id=acc, ctx=ast.Store())], value=comp)
+        return ast.fix_missing_locations(ast.copy_location(new, st))
+
+    def normalize_stmts(self, body, root=None):
+        """apply `accumulate_pattern` wherever it matches (also inside nested statement lists)"""
+        root = body if root is None else root
+        out, i = [], 0
+        while i < len(body):
+            st = body[i]
+            comp = self.accumulate_pattern(st, body[i + 1] if i + 1 < len(body) else None, root)
+            if comp is not None:
+                out.append(comp)
+                i += 2
+                continue
+            if isinstance(st, (ast.If, ast.For, ast.While)):
+                b2 = self.normalize_stmts(st.body, root)
+                o2 = self.normalize_stmts(st.orelse, root) if st.orelse else st.orelse
+                if len(b2) != len(st.body) or any(x is not y for x, y in zip(b2, st.body)) \
+                        or len(o2) != len(st.orelse) or any(x is not y for x, y in zip(o2, st.orelse)):
+                    st = copy.copy(st)
+                    st.body, st.orelse = b2, o2
+            out.append(st)
+            i += 1
+        return out
+
+    def inline_self_aliases(self, body, ci, selfname, params):
+        """`v = self.<attr>` in a statement list L of a method body (the body itself, or a branch of an `if` / the body
+        of a loop), where `v` is bound NOWHERE else in the method, every read of `v` is in a LATER statement of L
+        (so the assignment has been executed whenever `v` is read) and `<attr>` is an instance attribute / class
+        attribute / class alias of the translated class: the statement is dropped and every `v` is read as
+        `self.<attr>`.
+        This is exact in the translator's object model: `self` is never rebound (checked), the attributes of an
+        object are assigned in `__init__` only (an attribute assignment anywhere else is a `TranslateError`), reading
+        one has no effect and cannot raise, and every callee is one of the translated (pure) functions; so
+        `self.<attr>` denotes the same value wherever it is evaluated.  (`degree = self.degree` ..)"""
+        if selfname != "self" or ci is None:
+            return body
+        allnodes = [x for s_ in body for x in ast.walk(s_)]
+        banned = (ast.FunctionDef, ast.AsyncFunctionDef, ast.Lambda, ast.ClassDef, ast.Global, ast.Nonlocal,
+                  ast.NamedExpr, ast.ExceptHandler, ast.With, ast.AsyncWith, ast.Import, ast.ImportFrom, ast.Match)
+        if any(isinstance(x, banned) for x in allnodes):
+            return body
+        if any(isinstance(x, ast.Name) and x.id == selfname and not isinstance(x.ctx, ast.Load) for x in allnodes):
+            return body
+        aliases, drop = {}, set()
+
+        def scan(lst):
+            for i, st in enumerate(lst):
+                for sub in (getattr(st, "body", None), getattr(st, "orelse", None)):
+                    if isinstance(sub, list):
+                        scan(sub)
+                if not (isinstance(st, ast.Assign) and len(st.targets) == 1 and isinstance(st.targets[0], ast.Name)
+                        and isinstance(st.value, ast.Attribute) and isinstance(st.value.value, ast.Name)
+                        and st.value.value.id == selfname):
+                    continue
+                v, a = st.targets[0].id, st.value.attr
+                if v in params or v == selfname or v in aliases:
+                    continue
+                if not (a in (ci.fields or {}) or a in ci.aliases or a in ci.cattrs or a in ci.consts):
+                    continue
+                stores = sum(1 for x in allnodes if isinstance(x, ast.Name) and x.id == v and not isinstance(x.ctx, ast.Load))
+                if stores != 1 or self.occurrences(body, v) != 1 + self.occurrences(lst[i + 1:], v):
+                    continue
+                aliases[v] = st.value
+                drop.add(id(st))
+        scan(body)
+        if not aliases:
+            return body
+
+        class Sub(ast.NodeTransformer):
+            def visit_Name(self, node):
+                if node.id in aliases and isinstance(node.ctx, ast.Load):
+                    return ast.copy_location(copy.deepcopy(aliases[node.id]), node)
+                return node
+
+        def rebuild(lst):
+            out = []
+            for st in lst:
+                if id(st) in drop:
+                    continue
+                st = copy.copy(st)
+                for fld in ("body", "orelse"):
+                    sub = getattr(st, fld, None)
+                    if isinstance(sub, list):
+                        setattr(st, fld, rebuild(sub))
+                out.append(st)
+            return out
+        out = [ast.fix_missing_locations(Sub().visit(copy.deepcopy(st))) for st in rebuild(body)]
+        for st in out:
+            for x in ast.walk(st):
+                if isinstance(getattr(x, "body", None), list) and not x.body and not isinstance(x, ast.Module):
+                    raise TranslateError("dropping an alias assignment leaves an empty statement list")
+        return out
+
+    # ------------------------------------------------------------------ module-level helper functions
+    def module_helper(self, name):
+        """the `def` of a module-level function of the translated file that is the ONLY binding of its name in the
+        whole file (no other def / class / import / assignment / global declaration of the name); else None"""
+        defs = [n for n in self.tree.body if isinstance(n, ast.FunctionDef) and n.name == name]
+        if len(defs) != 1:
+            return None
+        for x in ast.walk(self.tree):
+            if isinstance(x, (ast.FunctionDef, ast.AsyncFunctionDef, ast.ClassDef)) and x.name == name and x is not defs[0]:
+                return None
+            if isinstance(x, ast.Name) and x.id == name and not isinstance(x.ctx, ast.Load):
+                return None
+            if isinstance(x, ast.alias) and (x.asname or x.name.split(".")[0]) == name:
+                return None
+            if isinstance(x, (ast.Global, ast.Nonlocal)) and name in x.names:
+                return None
+        return defs[0]
+
+    @staticmethod
+    def atomic_arg(a, selfname):
+        """an argument whose evaluation has no effect, cannot raise and may be repeated: a name, `self.<attr>`, an int"""
+        if isinstance(a, ast.Name):
+            return True
+        if isinstance(a, ast.Constant) and type(a.value) is int:
+            return True
+        return isinstance(a, ast.Attribute) and isinstance(a.value, ast.Name) and a.value.id == selfname
+
+    def inline_helper(self, node, e, env):
+        """a call `h(a1, .., ak)` of a module-level function of the same file whose body is (after
+        `normalize_stmts`) a docstring, optionally `x = <expr>`, and `return <expr>` / `return x`: the call is
+        translated as <expr> with the parameters replaced by the (atomic) arguments.  Python evaluates the arguments
+        (atomic: no effect), binds them to the parameters and evaluates <expr> in the helper's frame, where every
+        other name is a module-level / builtin name — the same object as in the caller, which is checked not to
+        shadow it.  The helper's source is pinned by a header line of the generated definition."""
+        name = node.name
+        self.check_decorators(node, ())
+        a = node.args
+        if a.kwonlyargs or a.vararg or a.kwarg or a.posonlyargs or a.defaults or e.keywords \
+                or any(isinstance(x, ast.Starred) for x in e.args):
+            raise TranslateError(f"helper {name}: unsupported parameter / argument kinds")
+        params = [p.arg for p in a.args]
+        if len(params) != len(e.args) or len(set(params)) != len(params):
+            raise TranslateError(f"helper {name}: call arity")
+        for arg in e.args:
+            if not self.atomic_arg(arg, self.selfname):
+                raise TranslateError(f"helper {name}: argument {ast.unparse(arg)!r} is not a name / self attribute / int literal")
+        body = [st for st in node.body
+                if not (isinstance(st, ast.Expr) and isinstance(st.value, ast.Constant) and isinstance(st.value.value, str))]
+        body = self.normalize_stmts(body)
+        if len(body) == 2 and isinstance(body[0], ast.Assign) and len(body[0].targets) == 1 \
+                and isinstance(body[0].targets[0], ast.Name) and isinstance(body[1], ast.Return) \
+                and isinstance(body[1].value, ast.Name) and body[1].value.id == body[0].targets[0].id \
+                and body[0].targets[0].id not in params \
+                and not self.occurrences([body[0].value], body[0].targets[0].id):
+            val = body[0].value        # `x = <expr>` / `return x`
+        elif len(body) == 1 and isinstance(body[0], ast.Return) and body[0].value is not None:
+            val = body[0].value
+        else:
+            raise TranslateError(f"helper {name}: the body is not a single expression (after normalisation)")
+        nodes = list(ast.walk(val))
+        if any(isinstance(x, self.SCOPE_SENSITIVE) for x in nodes):
+            raise TranslateError(f"helper {name}: scope-sensitive construct")
+        stored = {x.id for x in nodes if isinstance(x, ast.Name) and not isinstance(x.ctx, ast.Load)}
+        loaded = {x.id for x in nodes if isinstance(x, ast.Name) and isinstance(x.ctx, ast.Load)}
+        if stored & set(params):
+            raise TranslateError(f"helper {name}: a parameter is rebound")
+        for x in nodes:
+            if isinstance(x, (ast.ListComp, ast.GeneratorExp, ast.SetComp, ast.DictComp)):
+                first = x.generators[0].iter
+                if {y.id for y in ast.walk(first) if isinstance(y, ast.Name)} & stored:
+                    raise TranslateError(f"helper {name}: comprehension variable used in its own iterable")
+        free = loaded - stored - set(params)
+        for n in sorted(free):
+            if n in env or n == self.selfname:
+                raise TranslateError(f"helper {name}: its global name {n} is shadowed in the caller")
+        argnames = {y.id for arg in e.args for y in ast.walk(arg) if isinstance(y, ast.Name)}
+        if argnames & stored:
+            raise TranslateError(f"helper {name}: an argument would be captured by a comprehension variable")
+        mapping = dict(zip(params, e.args))
+
+        class Sub(ast.NodeTransformer):
+            def visit_Name(self, nd):
+                if nd.id in mapping and isinstance(nd.ctx, ast.Load):
+                    return ast.copy_location(copy.deepcopy(mapping[nd.id]), nd)
+                return nd
+        new = ast.fix_missing_locations(Sub().visit(copy.deepcopy(val)))
+        hdr = self.header(node, "").replace(" -/\n", " (module-level helper, inlined at its call) -/\n")
+        if hdr not in self.helper_hdrs:
+            self.helper_hdrs.append(hdr)
+        if name in self.inlining:
+            raise TranslateError(f"helper {name}: recursive")
+        self.inlining.append(name)
+        try:
+            return self.expr(new, env)
+        finally:
+            self.inlining.pop()
+
+    helper_hdrs = []
+    inlining = []
+
+    # ------------------------------------------------------------------ derived facts `len(X) >= E + k`
+    LENFACTS = "<len facts>"      # key of `env` (not an identifier): {X: (text of E, k)}; flows with the environment
+
+    @staticmethod
+    def is_len_of(node):
+        if isinstance(node, ast.Call) and isinstance(node.func, ast.Name) and node.func.id == "len" \
+                and len(node.args) == 1 and not node.keywords and isinstance(node.args[0], ast.Name):
+            return node.args[0].id
+        return None
+
+    def loop_len_facts(self, test, assigned, env):
+        """`while len(X) > E` (`>=`, `E < len(X)`, `E <= len(X)`): at the start of the body `len(X) >= E + 1` (`+ 0`), for an
+        expression E that mentions neither X nor any name the body assigns and calls nothing (so that it keeps its
+        value throughout the body; attributes of objects are immutable in the translator's object model)"""
+        if not (isinstance(test, ast.Compare) and len(test.ops) == 1) or "len" in env:
+            return {}
+        l, op, r = test.left, test.ops[0], test.comparators[0]
+        if isinstance(op, (ast.Lt, ast.LtE)):
+            l, r, op = r, l, (ast.Gt() if isinstance(op, ast.Lt) else ast.GtE())
+        if not isinstance(op, (ast.Gt, ast.GtE)):
+            return {}
+        x = self.is_len_of(l)
+        if x is None:
+            return {}
+        names = {y.id for y in ast.walk(r) if isinstance(y, ast.Name)}
+        if x in names or names & set(assigned) or any(isinstance(y, ast.Call) for y in ast.walk(r)):
+            return {}
+        return {x: (ast.unparse(r), 1 if isinstance(op, ast.Gt) else 0)}
+
+    @staticmethod
+    def len_effect(st, x):
+        """effect of a statement on `len(x)`: 0 (unchanged), -1 (`x.pop()`, desugared), None (unknown).  Lists are
+        only modified through the desugared forms `x = __upd__(x, ..)` / `__set__` / `__droplast__` on a fresh,
+        unaliased local (anything else is a `TranslateError` elsewhere), or by rebinding the name."""
+        if isinstance(st, ast.Assign) and len(st.targets) == 1 and isinstance(st.targets[0], ast.Name) \
+                and st.targets[0].id == x and isinstance(st.value, ast.Call) and isinstance(st.value.func, ast.Name) \
+                and st.value.args and isinstance(st.value.args[0], ast.Name) and st.value.args[0].id == x:
+            rest = [y for a_ in st.value.args[1:] for y in ast.walk(a_)]
+            clean = not any((isinstance(y, ast.Name) and y.id == x and not isinstance(y.ctx, ast.Load))
+                            or (isinstance(y, ast.Call) and isinstance(y.func, ast.Attribute)
+                                and isinstance(y.func.value, ast.Name) and y.func.value.id == x) for y in rest)
+            if clean and st.value.func.id in ("__upd__", "__set__"):
+                return 0
+            if clean and st.value.func.id == "__droplast__" and len(st.value.args) == 1:
+                return -1
+            return None
+        for y in ast.walk(st):
+            if isinstance(y, ast.Name) and y.id == x and not isinstance(y.ctx, ast.Load):
+                return None
+            if isinstance(y, ast.Call) and isinstance(y.func, ast.Attribute) and isinstance(y.func.value, ast.Name) \
+                    and y.func.value.id == x:
+                return None          # a method call on the list (`x.pop()`, `x.append(..)` ..)
+        return 0
+
+    def step_len_facts(self, env, st):
+        """the environment for `st` and what follows it.  (The new facts are already used for `st` itself: they are
+        never stronger than the old ones.)"""
+        facts = env.get(self.LENFACTS)
+        if not facts:
+            return env
+        new = {}
+        for x, (etext, k) in facts.items():
+            eff = self.len_effect(st, x)
+            if eff is not None:
+                new[x] = (etext, k + eff)
+        if new == facts:
+            return env
+        env = dict(env)
+        env[self.LENFACTS] = new
+        return env
+
+    def while_body_env(self, st, body, assigned, env):
+        """environment of the (desugared) body of a `while` loop: the facts of the enclosing code that the body cannot
+        invalidate, plus the fact given by the loop test"""
+        facts = {x: f for x, f in (env.get(self.LENFACTS) or {}).items()
+                 if all(self.len_effect(s_, x) == 0 for s_ in body)
+                 and not ({y.id for y in ast.walk(ast.parse(f[0], mode="eval")) if isinstance(y, ast.Name)} & set(assigned))}
+        facts.update(self.loop_len_facts(st.test, assigned, env))
+        env2 = dict(env)
+        env2[self.LENFACTS] = facts
+        return env2
+
+    def derived_nonneg(self, e, env):
+        """is the subtraction `len(X) - E` / `len(X) - E - c` non-negative by a fact `len(X) >= E + k`?"""
+        facts = env.get(self.LENFACTS)
+        if not facts or not (isinstance(e, ast.BinOp) and isinstance(e.op, ast.Sub)) or "len" in env:
+            return False
+        need, inner = 0, e
+        c = self.const_eval(e.right)
+        if isinstance(e.left, ast.BinOp) and isinstance(e.left.op, ast.Sub) and isinstance(c, int) \
+                and not isinstance(c, bool) and c >= 0:
+            need, inner = c, e.left
+        x = self.is_len_of(inner.left)
+        if x is None or x not in facts:
+            return False
+        etext, k = facts[x]
+        return ast.unparse(inner.right) == etext and k >= need
+
     # ------------------------------------------------------------------ functions / methods
     def ret_type(self, node, over):
         if over is not None:
@@ -1286,10 +1694,12 @@ class FieldsTranslator(ExtraTranslator):
         self.fresh, self.itcount, self.saw_raise = 0, 0, False
         self.fuels, self.loops_done, self.curname = list(fuels), 0, lean_name
         self.fresh_lists = set()
+        self.helper_hdrs = []
         save_nonneg = set(self.nonneg)
         self.nonneg |= set(nonneg)
         try:
-            body = self.block(node.body, env, fn, cur)
+            src = self.inline_self_aliases(self.normalize_stmts(list(node.body)), ci, selfname, names)
+            body = self.block(src, env, fn, cur)
         finally:
             self.nonneg = save_nonneg
         if self.loops_done != len(self.fuels):
@@ -1307,7 +1717,8 @@ class FieldsTranslator(ExtraTranslator):
         kd = ""
         if kinds:
             kd = "/- operand kinds: " + ", ".join(f"{k} : {kind_name(v)}" for k, v in kinds.items()) + " -/\n"
-        return f"{self.header(node, cname)}{kd}{aux}def {lean_name} {pdecl} : {full} :={do}\n{indent(body, 2)}\n"
+        hh = "".join(self.helper_hdrs)
+        return f"{self.header(node, cname)}{hh}{kd}{aux}def {lean_name} {pdecl} : {full} :={do}\n{indent(body, 2)}\n"
 
     def method_as(self, sci, cname, mname, lean_name, **kw):
         """translate `cname.mname` with the class-level constants of the subclass described by `sci`"""
@@ -1365,8 +1776,10 @@ class FieldsTranslator(ExtraTranslator):
         self.fresh, self.itcount, self.saw_raise = 0, 0, False
         self.fuels, self.loops_done, self.curname = [], 0, lean_name
         self.fresh_lists = set()
+        self.helper_hdrs = []
         if sub is not None:
             body = self.inline_super(body, cname, kinds)
+        body = self.normalize_stmts(body)
         done = ast.Return(value=ast.Name(id="__INIT_DONE__", ctx=ast.Load()))
         self.init_done = (ci, raises)
         try:
@@ -1384,6 +1797,7 @@ class FieldsTranslator(ExtraTranslator):
         do = " do" if raises else ""
         pdecl = " ".join(f"({lname(n)} : {lty(t)})" for n, t in allp)
         kd = "/- operand kinds: " + ", ".join(f"{k} : {kind_name(v)}" for k, v in kinds.items()) + " -/\n"
+        hdrs += "".join(self.helper_hdrs)
         return f"{hdrs}{kd}def {lean_name} {pdecl} : {full} :={do}\n{indent(txt, 2)}\n"
 
     def inline_super(self, body, base, kinds):
@@ -1457,11 +1871,12 @@ class FieldsTranslator(ExtraTranslator):
         self.fresh, self.itcount, self.saw_raise = 0, 0, False
         self.fuels, self.loops_done, self.curname = list(fuels), 0, lean_name
         self.fresh_lists = set()
+        self.helper_hdrs = []
         save_pos, save_nonneg = set(self.positive), set(self.nonneg)
         self.positive |= set(positive_params)
         self.nonneg |= set(nonneg)
         try:
-            body = self.block(node.body, env, fn, cur)
+            body = self.block(self.normalize_stmts(list(node.body)), env, fn, cur)
         finally:
             self.positive, self.nonneg = save_pos, save_nonneg
         if self.loops_done != len(self.fuels):
@@ -1475,7 +1890,8 @@ class FieldsTranslator(ExtraTranslator):
         pdecl = " ".join(f"({lname(n)} : {lty(t)})" for n, t in params)
         kd = "/- operand kinds: " + ", ".join(f"{k} : {kind_name(v)}" for k, v in kinds.items()) + " -/\n" if kinds else ""
         aux = "".join(x + "\n\n" for x in cur["aux_defs"])
-        return f"{self.header(node, '')}{kd}{aux}def {lean_name} {pdecl} : {lty(rty)} :=\n{indent(body, 2)}\n"
+        hh = "".join(self.helper_hdrs)
+        return f"{self.header(node, '')}{hh}{kd}{aux}def {lean_name} {pdecl} : {lty(rty)} :=\n{indent(body, 2)}\n"
 
 
 class _RenameAttr(ast.NodeTransformer):
